@@ -334,6 +334,21 @@ func (d fragDocT) rootFields() []string {
 	return keys
 }
 
+// multiOp: the document with further operations around the selected one (always named S): 1 = S first, 2 = S in the
+// middle, 3 = S last. The request then names the operation ("S"); subscribing and every per-event execution must use it.
+func multiOp(query string, mode int) string {
+	const q, e, m = `query Other { q }`, `subscription Else { tock { n } }`, `mutation Mut { bump }`
+	switch mode {
+	case 1:
+		return query + " " + q + " " + m
+	case 2:
+		return e + " " + query + " " + q
+	case 3:
+		return m + " " + e + " " + query
+	}
+	return query
+}
+
 // aliased: the request text with the root field `field` given the alias `alias`
 func aliased(query, field, alias string) string {
 	if alias == "" {
@@ -424,7 +439,8 @@ func buildSchema() graphql.Schema {
 		}},
 	}})
 	schema, err := graphql.NewSchema(graphql.SchemaConfig{
-		Query: graphql.NewObject(graphql.ObjectConfig{Name: "Query", Fields: graphql.Fields{"q": &graphql.Field{Type: graphql.Int}}}),
+		Query:    graphql.NewObject(graphql.ObjectConfig{Name: "Query", Fields: graphql.Fields{"q": &graphql.Field{Type: graphql.Int}}}),
+		Mutation: graphql.NewObject(graphql.ObjectConfig{Name: "Mutation", Fields: graphql.Fields{"bump": &graphql.Field{Type: graphql.Int}}}),
 		Subscription: graphql.NewObject(graphql.ObjectConfig{Name: "Subscription", Fields: graphql.Fields{
 			"paint": &graphql.Field{Type: graphql.String,
 				Args: graphql.FieldConfigArgument{
@@ -711,6 +727,7 @@ type caseT struct {
 	Frag     int      `json:"frag"`     // index into fragDocs: root-level fragment spreads / inline fragments (0 = none)
 	FragVar  bool     `json:"fragVar"`  // their directive conditions come from variables
 	Root     string   `json:"root"`     // "" = the nullable root field tick; "strict" = the non-null root field strict: Tick!
+	Multi    int      `json:"multi"`    // further operations in the document, the request names operation S: 1 S first, 2 middle, 3 last
 }
 
 type observation struct {
@@ -791,6 +808,10 @@ func (r *runner) start() {
 	}
 	if r.spec.model == "stream" {
 		query = aliased(query, cur.selected, r.c.Alias)
+	}
+	if r.c.Multi > 0 && r.spec.model == "stream" {
+		query = multiOp(query, r.c.Multi)
+		r.spec.op = "S"
 	}
 	if r.c.Entry == "execute" && r.spec.model != "invalid" {
 		doc, err := parser.Parse(parser.ParseParams{Source: query})
@@ -1264,7 +1285,7 @@ func main() {
 	}
 	defer drv.Close()
 	schema := buildSchema()
-	run.Res.Rule = "schedules = sequences of harness intents (P produce next event, O offer next event in the background, D consumer receives, R receive racing with cancel, C cancel, X close source, W wait for the forwarder to leave, S consumer stops, Z consumer pauses) enumerated depth-first under the model's enabledness, then a finale (complete: deliver/produce everything, close the source; or cancel: cancel and give no consumer help); requests: stream with 0..4 events of 11 payload kinds (ok, root resolver fails, nullable leaf fails, non-null leaf null, and the closure look-alikes nil, empty map, typed nil pointer, false, 0, \"\", empty slice — each also swept over every position of sequences of 1..4 events); a quarter of the stream cases (plus a sweep) subscribe with variables whose coercion is not idempotent (enum with int internal values, enum whose internal values are names of other values, custom scalar that rewrites its value, input object and lists of these, defaults, provided values, literals) and compare every delivered result with graphql.Execute of the same selection on the event with the same raw variables, cross-checked by a hand-computed expectation; a quarter of the stream cases (plus a sweep) give the single root field an alias — fresh, or the name of another subscription field (tock, paint, nosub, tick), whose Subscribe resolver hands out a decoy stream — and the results must be keyed by the alias and follow the SELECTED field's stream; a sweep puts @skip / @include / both (all truth combinations, literal and variable-driven) on the root field, alone and next to a second root field excluded by its own directives: the field is selected iff not skipped and included, otherwise exactly one error result; a sweep over documents with root-level fragment spreads / inline fragments (with and without type condition, nested, the same fragment spread several times) carrying @skip/@include, whose root field set is computed by an oracle written after the specification's CollectFields; the non-null root field strict: Tick! (a third of the plain stream cases plus a sweep) with payloads that null the whole data (resolver error, non-null leaf null, resolver panic, resolver returns nil) interleaved with succeeding events; the arguments the Subscribe resolver receives are compared with the coerced ones, 9 one-shot failures inside the goroutine, non-channel value, parse and validation errors; entries graphql.Subscribe and ExecuteSubscription; the real run is recorded as model actions and validated by the compiled Lean model; non-trivial = the recorded run has >= 3 model actions (>= 1 for one-shot requests); distinct by (request, entry, events, intents, consumer, finale)"
+	run.Res.Rule = "schedules = sequences of harness intents (P produce next event, O offer next event in the background, D consumer receives, R receive racing with cancel, C cancel, X close source, W wait for the forwarder to leave, S consumer stops, Z consumer pauses) enumerated depth-first under the model's enabledness, then a finale (complete: deliver/produce everything, close the source; or cancel: cancel and give no consumer help); requests: stream with 0..4 events of 11 payload kinds (ok, root resolver fails, nullable leaf fails, non-null leaf null, and the closure look-alikes nil, empty map, typed nil pointer, false, 0, \"\", empty slice — each also swept over every position of sequences of 1..4 events); a quarter of the stream cases (plus a sweep) subscribe with variables whose coercion is not idempotent (enum with int internal values, enum whose internal values are names of other values, custom scalar that rewrites its value, input object and lists of these, defaults, provided values, literals) and compare every delivered result with graphql.Execute of the same selection on the event with the same raw variables, cross-checked by a hand-computed expectation; a quarter of the stream cases (plus a sweep) give the single root field an alias — fresh, or the name of another subscription field (tock, paint, nosub, tick), whose Subscribe resolver hands out a decoy stream — and the results must be keyed by the alias and follow the SELECTED field's stream; a sweep puts @skip / @include / both (all truth combinations, literal and variable-driven) on the root field, alone and next to a second root field excluded by its own directives: the field is selected iff not skipped and included, otherwise exactly one error result; a sweep over documents with root-level fragment spreads / inline fragments (with and without type condition, nested, the same fragment spread several times) carrying @skip/@include, whose root field set is computed by an oracle written after the specification's CollectFields; the non-null root field strict: Tick! (a third of the plain stream cases plus a sweep) with payloads that null the whole data (resolver error, non-null leaf null, resolver panic, resolver returns nil) interleaved with succeeding events; the arguments the Subscribe resolver receives are compared with the coerced ones; a quarter of the stream cases (plus a sweep) put further operations (query, mutation, another subscription) around the selected one — first, middle, last — and name the operation, 9 one-shot failures inside the goroutine, non-channel value, parse and validation errors; entries graphql.Subscribe and ExecuteSubscription; the real run is recorded as model actions and validated by the compiled Lean model; non-trivial = the recorded run has >= 3 model actions (>= 1 for one-shot requests); distinct by (request, entry, events, intents, consumer, finale)"
 
 	one := func(c caseT) {
 		spec, okSpec := reqSpecs[c.Req]
@@ -1330,13 +1351,17 @@ func main() {
 				return
 			}
 			vc := varCases[c.Vars]
-			doc, err := parser.Parse(parser.ParseParams{Source: aliased(vc.query, "paint", c.Alias)})
+			refOp := ""
+			if c.Multi > 0 {
+				refOp = "S"
+			}
+			doc, err := parser.Parse(parser.ParseParams{Source: multiOp(aliased(vc.query, "paint", c.Alias), c.Multi)})
 			if err != nil {
 				run.CheckError("variable case does not parse: " + err.Error())
 				return
 			}
 			for _, e := range c.Events {
-				ref := canonResult(graphql.Execute(graphql.ExecuteParams{Schema: schema, Root: mkEvent(e[0], e[1]), AST: doc, Args: vc.vars, Context: context.Background()}))
+				ref := canonResult(graphql.Execute(graphql.ExecuteParams{Schema: schema, Root: mkEvent(e[0], e[1]), AST: doc, OperationName: refOp, Args: vc.vars, Context: context.Background()}))
 				reference = append(reference, ref)
 				if hand := handExpected(vc, e, key); hand != ref && refFault == "" {
 					refFault = "graphql.Execute of the selection on the event with the raw variables gives " + ref + ", the independent expectation is " + hand
@@ -1456,6 +1481,9 @@ func main() {
 			}
 			replay["document"] = aliased(map[bool]string{false: streamQuery, true: varCases[c.Vars].query}[c.Vars > 0], map[bool]string{false: "tick", true: "paint"}[c.Vars > 0], c.Alias)
 		}
+		if c.Multi > 0 && spec.model == "stream" {
+			run.Tag(fmt.Sprintf("multi-operation-document:selected-%s", []string{"", "first", "middle", "last"}[c.Multi]))
+		}
 		if c.Frag > 0 {
 			run.Tag("root-fragments:" + map[bool]string{true: "one-root-field", false: "not-exactly-one-root-field"}[spec.model == "stream"])
 			replay["document"], replay["variables"], replay["root_fields_by_the_specification"] = spec.query, spec.vars, fragDocs[c.Frag].rootFields()
@@ -1516,6 +1544,9 @@ func main() {
 		}
 		if bad != "" && c.Alias != "" && spec.model == "stream" {
 			bad += fmt.Sprintf("; the root field carries the alias %q (document in the replay): the subscription must follow the stream of the SELECTED field %q, whose Subscribe resolver alone hands out the source channel", c.Alias, cur.selected)
+		}
+		if bad != "" && c.Multi > 0 && spec.model == "stream" {
+			bad += "; the document holds several operations and the request names operation \"S\": subscribing AND every per-event execution must run operation S"
 		}
 		if bad != "" && c.Frag > 0 {
 			bad += fmt.Sprintf("; document %s variables %s: by the specification's CollectFields the root fields are %v", spec.query, hx.Canon(spec.vars), fragDocs[c.Frag].rootFields())
@@ -1722,6 +1753,23 @@ func main() {
 			}
 		}
 	}
+	// documents with several operations (queries, mutations, other subscriptions around the selected one, which
+	// stands first / in the middle / last) and an operation name
+	for multi := 1; multi <= 3; multi++ {
+		for _, doc := range []caseT{{}, {Vars: 1}, {Vars: 7}, {Alias: "t"}, {Root: "strict"}, {Frag: 2}, {Dir: "sFiTv"}} {
+			for _, v := range []struct{ consumer, intents, finale string }{{"prompt", "", "complete"}, {"slow", "PDP", "cancel"}, {"slow", "PDPDX", "complete"}} {
+				for _, entry := range []string{"subscribe", "execute"} {
+					if run.TooManyViolations() {
+						break
+					}
+					c := doc
+					c.Req, c.Entry, c.Events, c.Intents, c.Consumer, c.Finale, c.Multi = "stream", entry, [][2]int{{0, 71}, {1, 72}, {0, 73}}, v.intents, v.consumer, v.finale, multi
+					one(c)
+					run.Tag("multi-operation-sweep")
+				}
+			}
+		}
+	}
 	// fragment spreads and inline fragments at the root, carrying @skip / @include, the same fragment spread several
 	// times with different conditions, nested fragments; literal and variable-driven
 	for fi := 1; fi < len(fragDocs); fi++ {
@@ -1854,6 +1902,9 @@ func main() {
 				}
 				if (c.Vars > 0 && c.Alias == "paint") || (c.Vars == 0 && c.Alias == "tick") {
 					c.Alias = "" // an alias equal to the field's own name is no alias
+				}
+				if rg.Chance(1, 4) {
+					c.Multi = 1 + rg.Intn(3) // several operations in the document, the request names S
 				}
 				if c.Vars == 0 && c.Alias == "" && rg.Chance(1, 3) {
 					c.Root = "strict" // the non-null root field
